@@ -28,6 +28,13 @@
 (* (SharedProgram!CmdOf: the variable id of Config.Vars, different for every   *)
 (* goroutine): an execution must produce what a single execution with ITS      *)
 (* variant produces, whatever commands other interpreters start meanwhile.     *)
+(* The same holds for the NUMBER FORMATS of an execution (OFMT / CONVFMT given  *)
+(* as Config.Vars, a different non-default pair for every goroutine, applied   *)
+(* to non-integer numbers): the formats are state of the interpreter, so the   *)
+(* text an execution prints is the one a single execution with ITS formats     *)
+(* prints, whatever formats other interpreters use at the same time.  Sources  *)
+(* with range rules end inside an open range (end of input, exit): the         *)
+(* in-range state is state of the execution (SharedProgram: interp[i].open).   *)
 EXTENDS Resolver, TraceBase
 
 VARIABLES l, program, solo
